@@ -95,6 +95,34 @@ pub fn gen(rng: &mut Rng, thorough: bool, fam: &str, out: &mut Out) -> Vec<Value
         c["fam"] = json!("c09.run");
         cases.push(c);
     }
+    // the embed clause of C09: credentials issued against any state of a history (re-issued indices, on-demand registries after
+    // position 0 was touched, ...) carry the accumulator of the matching issue update
+    let n_issue = match (fam, thorough) { ("c09", false) => 24, ("c09", true) => 600, _ => 0 };
+    for i in 0..n_issue {
+        let l = 3 + (i % 4) as u64;
+        let n_ops = 1 + rng.below(4);
+        let mut c = gen_run(rng, l, n_ops, false);
+        let n_states = n_ops + 1;
+        let mut queries = vec![];
+        for _ in 0..3 {
+            queries.push(json!({"q":"issue","state":rng.below(n_states),"k":1 + rng.below(l - 1)}));
+        }
+        // make index 0 and a revoke / re-issue of the queried index part of most histories
+        if let Some(ops) = c["ops"].as_array_mut() {
+            if let Some(op) = ops.first_mut() {
+                if op["kind"] == "update" && rng.chance(2, 3) {
+                    op["issued"] = json!([0, queries[0]["k"]]);
+                    op["revoked"] = Value::Null;
+                }
+            }
+            if ops.len() >= 2 && rng.chance(1, 2) {
+                ops[0] = json!({"kind":"update","issued": null, "revoked": [queries[0]["k"]], "ts": 20});
+            }
+        }
+        c["queries"] = json!(queries);
+        c["fam"] = json!("c09.issue");
+        cases.push(c);
+    }
     for i in 0..n_query {
         let l = 2 + (i % 5) as u64;
         let n_ops = 1 + rng.below(4);
